@@ -17,6 +17,7 @@ import (
 	"strconv"
 	"strings"
 	"sync"
+	"sync/atomic"
 	"time"
 
 	"github.com/agiledragon/gomonkey/v2"
@@ -38,6 +39,28 @@ type Scope struct {
 	Shared bool     `json:"shared"`
 	Kids   []*Scope `json:"kids"`
 	Out    string   `json:"out"` // nil | err | panic
+	Pv     string   `json:"pv,omitempty"`    // dynamic type of the panic value: str | err | int | struct | ptr | rt
+	Calls  []Call   `json:"calls,omitempty"` // carrier calls the callback makes on its own context before its children
+}
+
+// Call: an outgoing RPC through one of the integrations, made from inside a scope's callback on the
+// scope's own context; Pre = what the outgoing metadata / invocation already holds (e.g. forwarded
+// from the caller's own incoming request)
+type Call struct {
+	Kind string `json:"kind"` // grpc | dubbo
+	Pre  []HV   `json:"pre"`
+}
+
+// CallObs: what a carrier call did
+type CallObs struct {
+	Scope int    `json:"scope"`
+	Kind  string `json:"kind"`
+	Pre   []HV   `json:"pre"`
+	Got   string `json:"got"`   // xid the callee found (raw string)
+	Want  string `json:"want"`  // xid bound in the caller's context when it made the call (raw string)
+	After Ev     `json:"after"` // the caller's context right after the call
+	Enter Ev     `json:"enter"` // ... and when the callback started
+	Panic bool   `json:"panic"`
 }
 
 type Entry struct {
@@ -71,6 +94,8 @@ type Case struct {
 	Nr      int      `json:"nr"`
 	Trace   []Ev     `json:"trace"`
 	Hung    bool     `json:"hung"`
+	Skipped bool     `json:"skipped"` // not run: too many earlier cases of the run did not return
+	Calls   []CallObs `json:"callobs"`
 	InCb    bool     `json:"incb"` // cancel==1 realised inside the root callback instead of in the stub
 }
 
@@ -89,9 +114,34 @@ type caseRun struct {
 }
 
 var (
-	runsMu sync.RWMutex
-	runs   = map[int]*caseRun{}
+	runsMu    sync.RWMutex
+	runs      = map[int]*caseRun{}
+	hungCount atomic.Int32
 )
+
+// no legitimate case takes longer than a few seconds (8 sends x 200 ms per second phase)
+const hangLimit = 15 * time.Second
+
+type bizStruct struct{ Code int }
+
+// panicValue: panic values of several dynamic types (a recovered panic must surface whatever it is)
+func panicValue(kind string) interface{} {
+	switch kind {
+	case "err":
+		return errors.New("business panic (error value)")
+	case "int":
+		return 42
+	case "struct":
+		return bizStruct{7}
+	case "ptr":
+		return &bizStruct{8}
+	case "rt":
+		var m map[string]int
+		m["x"] = 1 // runtime error: assignment to entry in nil map
+		return nil
+	}
+	return "business panic"
+}
 
 func (cr *caseRun) emit(e Ev) {
 	cr.mu.Lock()
@@ -218,6 +268,9 @@ func stub(_ *getty.GettyRemotingClient, msg interface{}) (interface{}, error) {
 	cr.mu.Lock()
 	defer cr.mu.Unlock()
 	if cr.frozen {
+		cr.mu.Unlock()
+		time.Sleep(20 * time.Millisecond) // a caller that ignores the cancelled context must not spin
+		cr.mu.Lock()
 		return nil, errors.New("tmrun stub: run was stopped")
 	}
 	if kind != "begin" {
@@ -301,9 +354,17 @@ func (cr *caseRun) call(ctx context.Context, s *Scope, root bool) {
 			}
 		}()
 		err := tm.WithGlobalTx(ctx, gc, func(ctx context.Context) error {
-			cr.emit(cr.seen("enter", s.ID, ctx))
+			ent := cr.seen("enter", s.ID, ctx)
+			cr.emit(ent)
 			if root && cr.c.InCb && cr.c.Cancel == 1 {
 				cr.cancel()
+			}
+			for _, cl := range s.Calls {
+				ob := carrierCall(ctx, cl)
+				ob.Scope, ob.Enter, ob.After = s.ID, ent, cr.seen("after", s.ID, ctx)
+				cr.mu.Lock()
+				cr.c.Calls = append(cr.c.Calls, ob)
+				cr.mu.Unlock()
 			}
 			for _, k := range s.Kids {
 				kctx := ctx
@@ -322,7 +383,7 @@ func (cr *caseRun) call(ctx context.Context, s *Scope, root bool) {
 			case "err":
 				return errors.New("business error")
 			case "panic":
-				panic("business panic")
+				panic(panicValue(s.Pv))
 			}
 			return nil
 		})
@@ -362,7 +423,8 @@ func runCase(c *Case) {
 	}()
 	select {
 	case <-done:
-	case <-time.After(60 * time.Second):
+	case <-time.After(hangLimit):
+		hungCount.Add(1)
 		cr.mu.Lock()
 		cr.frozen = true
 		c.Hung = true
@@ -396,6 +458,11 @@ func RunCases(cases []*Case, par int) {
 		sem := make(chan struct{}, par)
 		var wg sync.WaitGroup
 		for _, c := range groups[k] {
+			if hungCount.Load() >= 8 {
+				c.Skipped = true // enough evidence; keep the run short
+				c.Trace = []Ev{}
+				continue
+			}
 			wg.Add(1)
 			sem <- struct{}{}
 			go func(c *Case) {
